@@ -45,7 +45,7 @@ pin_project! {
         handle: Receiver<Socket<E>>,
         buffered_req: Option<Frame>,
         buffered_rep: Option<Frame>,
-        buffered_err: Option<(Option<ErrorPayload>, BoxSink<Frame, E>)>,
+        rejected: Vec<(Option<ErrorPayload>, BoxSink<Frame, E>)>,
     }
 }
 
@@ -62,7 +62,7 @@ impl<E> Topic<E> {
                 handle: rx,
                 buffered_req: None,
                 buffered_rep: None,
-                buffered_err: None,
+                rejected: Vec::new(),
             },
             tx,
         )
@@ -84,7 +84,7 @@ where
             mut handle,
             buffered_req,
             buffered_rep,
-            buffered_err,
+            rejected,
         } = self.project();
 
         loop {
@@ -116,34 +116,44 @@ where
                 }
             }
 
-            // If we've got an error buffered already, we need to write it to the client
-            // before we can do anything else.
-            if let Some((maybe_err, mut si)) = buffered_err.take() {
-                if let Some(err) = maybe_err {
+            // Surplus repliers are told so and closed. Each refusal makes progress on its own:
+            // a peer that is slow to take its error frame must not hold up the topic.
+            let mut idx = 0;
+            while idx < rejected.len() {
+                let (maybe_err, si) = &mut rejected[idx];
+                let done = if let Some(err) = maybe_err.take() {
                     match si.poll_ready_unpin(cx) {
                         Poll::Ready(Ok(_)) => {
                             if si.start_send_unpin(Frame::Error(err)).is_ok() {
-                                *buffered_err = Some((None, si));
-                                // Close (and thereby flush) the rejected sink before taking
-                                // the next socket, which could claim this slot.
+                                // Now close (and thereby flush) the rejected sink
                                 continue;
                             }
+                            true
                         }
-                        Poll::Ready(Err(e)) => warn!("Could not poll replier sink: {e:?}"),
+                        Poll::Ready(Err(e)) => {
+                            warn!("Could not poll replier sink: {e:?}");
+                            true
+                        }
                         Poll::Pending => {
-                            *buffered_err = Some((Some(err), si));
-                            return Poll::Pending;
+                            *maybe_err = Some(err);
+                            false
                         }
                     }
                 } else {
                     match si.poll_close_unpin(cx) {
-                        Poll::Ready(Ok(_)) => (),
-                        Poll::Ready(Err(e)) => warn!("Could not close replier sink: {e:?}"),
-                        Poll::Pending => {
-                            *buffered_err = Some((None, si));
-                            return Poll::Pending;
+                        Poll::Ready(Ok(_)) => true,
+                        Poll::Ready(Err(e)) => {
+                            warn!("Could not close replier sink: {e:?}");
+                            true
                         }
+                        Poll::Pending => false,
                     }
+                };
+
+                if done {
+                    drop(rejected.swap_remove(idx));
+                } else {
+                    idx += 1;
                 }
             }
 
@@ -162,7 +172,7 @@ where
                                     code: REPLIER_ALREADY_BOUND,
                                     message: "A replier already exists for this topic".into(),
                                 };
-                                *buffered_err = Some((Some(error_payload), si));
+                                rejected.push((Some(error_payload), si));
                             } else {
                                 let _ = server.insert((si, st));
                             }
